@@ -14,7 +14,7 @@ def classify(block, idx):
 def run(run):
     quick = run.tier == "quick"
     out = run.out
-    consts = "  Styles = {\"esri\", \"ogc\"}\n  Orders = {1, 2, 3}\n"
+    consts = "  Styles = {\"esri\", \"ogc\"}\n  Orders = {1, 2, 3}\n  UPos = {\"last\", \"first\"}\n"
     p = os.path.join(out, "MC.cfg")
     with open(p, "w") as f:
         f.write("SPECIFICATION Spec\nCHECK_DEADLOCK FALSE\nCONSTANTS\n" + consts + "  LongCFixup = TRUE\nINVARIANT ClauseMappingOK\n")
@@ -64,7 +64,7 @@ def run(run):
     run.distinct_nontrivial = len(ntriv)
     run.samples = [json.loads(x) for x in lines[:2]]
     run.rule = ("every abstract CRS (6 projections x 3 linear units x TOWGS84 0/3/7 terms x 2 parameter-naming styles x 3 PARAMETER "
-                "orders) x seeded value draws inside each projection's validity range; registry observations once. Non-trivial = a "
+                "orders x linear UNIT clause before or after the parameters) x seeded value draws inside each projection's validity range; registry observations once. Non-trivial = a "
                 "non-metre unit, a datum shift or OGC-style centre parameters; distinct = distinct (abstract CRS, value draw)")
     run.assumptions = ["the micrometre comparison is an integer inequality over differences computed by the harness from two runs of the "
                        "real code; TLA+ contributes the clause mapping, the symbolic parser models and the enumeration",
@@ -82,7 +82,7 @@ def replay(run, path):
     vlib.write_ndjson(cp, [hd])
     tr = os.path.join(run.out, "trace_replay.ndjson")
     run.drive(["c20", "replay", cp, tr])
-    consts = "  Styles = {\"esri\", \"ogc\"}\n  Orders = {1, 2, 3}\n"
+    consts = "  Styles = {\"esri\", \"ogc\"}\n  Orders = {1, 2, 3}\n  UPos = {\"last\", \"first\"}\n"
     tcfg = os.path.join(run.out, "Trace.cfg")
     with open(tcfg, "w") as f:
         f.write("SPECIFICATION TraceSpec\nINVARIANT TReport\nCHECK_DEADLOCK FALSE\nCONSTANTS\n" + consts + "  LongCFixup = TRUE\n")
